@@ -2,7 +2,7 @@
 //! emits Coq cases for C08/Corr.v (model correspondence + density-clustering oracle).
 use linfa::traits::Transformer;
 use linfa::{DatasetBase, ParamGuard};
-use linfa_clustering::{Dbscan, Optics};
+use linfa_clustering::{Dbscan, DbscanParams, Optics, OpticsParams};
 use linfa_nn::distance::{Distance, L1Dist, L2Dist, LInfDist};
 use linfa_nn::{CommonNearestNeighbour, NearestNeighbour};
 use ndarray::{Array1, Array2};
@@ -15,12 +15,38 @@ enum Met { L1, L2, Linf }
 #[derive(Clone, Copy, PartialEq, Debug)]
 enum EpsMode { Explicit, DbscanDefault, OpticsDefault }
 
+/// how the parameter sets are built: `start` = W params_with(min_points, metric, index) | X params_with with ANOTHER
+/// index (the intended one is then set by nn_algo) | P params(min_points) (L2 / KdTree defaults, metric and index
+/// set by the setters; L2 cases only) | O OpticsParams::new for OPTICS (DBSCAN: params_with);
+/// `steps` = the setter calls in order: T tolerance, D dist_fn, N nn_algo - always with the values of the case
+#[derive(Clone, Debug)]
+struct Chain { start: char, steps: Vec<char> }
+impl Chain {
+    fn name(&self) -> String { format!("{}{}", self.start, self.steps.iter().collect::<String>()) }
+}
+
+const CHAIN_ORDERS: [&str; 11] = ["T", "DT", "TD", "NT", "TN", "DNT", "DTN", "NDT", "NTD", "TDN", "TND"];
+
+fn gen_chain(r: &mut Sm64, m: Met, ds_all: usize) -> Chain {
+    if ds_all < 66 {
+        // every order of the setters at least six times per run, whatever the seed (covers the corpus of past findings)
+        return Chain { start: 'W', steps: CHAIN_ORDERS[ds_all % CHAIN_ORDERS.len()].chars().collect() };
+    }
+    let start = match r.below(8) { 0 => 'X', 1 if m == Met::L2 => 'P', 2 => 'O', _ => 'W' };
+    let mut steps = vec!['T'];
+    if start == 'P' || r.chance(0.6) { steps.push('D'); }
+    if start == 'P' || start == 'X' || r.chance(0.5) { steps.push('N'); }
+    r.shuffle(&mut steps);
+    Chain { start, steps }
+}
+
 #[derive(Clone, Debug)]
 struct RunOut {
     nbrs: Vec<Vec<usize>>,
     labels: Vec<Option<usize>>,
     optics: Vec<(usize, Option<f64>, Option<f64>)>,
     dataset_same: bool,
+    getters_ok: bool,
 }
 
 fn nn_of(k: usize) -> CommonNearestNeighbour {
@@ -56,8 +82,11 @@ fn timed<T: Send + 'static>(secs: u64, f: impl FnOnce() -> T + Send + 'static) -
     }
 }
 
+type MkD<D> = fn(usize, D, CommonNearestNeighbour) -> DbscanParams<f64, D, CommonNearestNeighbour>;
+type MkO<D> = fn(usize, D, CommonNearestNeighbour) -> OpticsParams<f64, D, CommonNearestNeighbour>;
+
 fn run_with<D: Distance<f64> + 'static>(
-    dist: D, nnk: usize, x: &Array2<f64>, eps: f64, mode: EpsMode, minpts: usize,
+    dist: D, nnk: usize, x: &Array2<f64>, eps: f64, mode: EpsMode, minpts: usize, chain: &Chain, mk_d: MkD<D>, mk_o: MkO<D>,
 ) -> Result<RunOut, String> {
     let n = x.nrows();
     // the neighbour lists the algorithms will see: same index type, same construction
@@ -68,15 +97,37 @@ fn run_with<D: Distance<f64> + 'static>(
             .map_err(|e| format!("within_range: {}", e))?,
         Err(_) => vec![vec![]; n],
     };
-    let dp = Dbscan::params_with(minpts, dist.clone(), nn_of(nnk));
-    let dp = if mode == EpsMode::DbscanDefault { dp } else { dp.tolerance(eps) };
+    // the parameter sets are built through the setters in the order of the chain, always with the case's values;
+    // everything the results are judged against (neighbour lists above, oracle in Coq) comes from the case, not from them
+    let nn0 = if chain.start == 'X' { nn_of((nnk + 1) % 3) } else { nn_of(nnk) };
+    let mut dp = mk_d(minpts, dist.clone(), nn0.clone());
+    for st in chain.steps.iter() {
+        dp = match st {
+            'T' => if mode == EpsMode::DbscanDefault { dp } else { dp.tolerance(eps) },
+            'D' => dp.dist_fn(dist.clone()),
+            _ => dp.nn_algo(nn_of(nnk)),
+        };
+    }
     let labels: Array1<Option<usize>> = dp.transform(x).map_err(|e| format!("Dbscan: {}", e))?;
     // the dataset form must give the same targets and leave the records alone
     let ds = DatasetBase::from(x.clone());
     let ds2 = dp.transform(ds).map_err(|e| format!("Dbscan(dataset): {}", e))?;
     let dataset_same = ds2.targets() == &labels && ds2.records() == x;
-    let op = Optics::params_with(minpts, dist, nn_of(nnk));
-    let op = if mode == EpsMode::OpticsDefault { op } else { op.tolerance(eps) };
+    let mut op = mk_o(minpts, dist.clone(), nn0);
+    for st in chain.steps.iter() {
+        op = match st {
+            'T' => if mode == EpsMode::OpticsDefault { op } else { op.tolerance(eps) },
+            'D' => op.dist_fn(dist.clone()),
+            _ => op.nn_algo(nn_of(nnk)),
+        };
+    }
+    // the getters of the checked parameter sets must report the case's values (extra Rust-side check, bit 65536)
+    let getters_ok = match (dp.clone().check(), op.clone().check()) {
+        (Ok(dv), Ok(ov)) => dv.minimum_points() == minpts && ov.minimum_points() == minpts
+            && dv.tolerance() == eps && ov.tolerance() == eps
+            && dv.nn_algo() == &nn_of(nnk) && ov.nn_algo() == &nn_of(nnk),
+        _ => false,
+    };
     let an = op.transform(x.view()).map_err(|e| format!("Optics: {}", e))?;
     let optics: Vec<(usize, Option<f64>, Option<f64>)> =
         an.iter().map(|s| (s.index(), *s.core_distance(), *s.reachability_distance())).collect();
@@ -90,15 +141,37 @@ fn run_with<D: Distance<f64> + 'static>(
             })
     };
     let views_same = same(an.as_slice()) && same(&an[..]) && (optics.is_empty() || an[0].index() == optics[0].0);
-    Ok(RunOut { nbrs, labels: labels.to_vec(), optics, dataset_same: dataset_same && views_same })
+    Ok(RunOut { nbrs, labels: labels.to_vec(), optics, dataset_same: dataset_same && views_same, getters_ok })
 }
 
-fn run(m: Met, nnk: usize, x: &Array2<f64>, eps: f64, mode: EpsMode, minpts: usize) -> Result<RunOut, String> {
+fn mk_d_with<D: Distance<f64>>(mp: usize, d: D, n: CommonNearestNeighbour) -> DbscanParams<f64, D, CommonNearestNeighbour> {
+    Dbscan::params_with(mp, d, n)
+}
+fn mk_o_with<D: Distance<f64>>(mp: usize, d: D, n: CommonNearestNeighbour) -> OpticsParams<f64, D, CommonNearestNeighbour> {
+    Optics::params_with(mp, d, n)
+}
+fn mk_o_new<D: Distance<f64>>(mp: usize, d: D, n: CommonNearestNeighbour) -> OpticsParams<f64, D, CommonNearestNeighbour> {
+    OpticsParams::new(mp, d, n)
+}
+fn mk_d_params(mp: usize, _d: L2Dist, _n: CommonNearestNeighbour) -> DbscanParams<f64, L2Dist, CommonNearestNeighbour> {
+    Dbscan::params(mp)
+}
+fn mk_o_params(mp: usize, _d: L2Dist, _n: CommonNearestNeighbour) -> OpticsParams<f64, L2Dist, CommonNearestNeighbour> {
+    Optics::params(mp)
+}
+
+fn run(m: Met, nnk: usize, x: &Array2<f64>, eps: f64, mode: EpsMode, minpts: usize, chain: &Chain) -> Result<RunOut, String> {
     let x2 = x.clone();
+    let ch = chain.clone();
+    let new_o = ch.start == 'O';
     match timed(8, move || match m {
-        Met::L1 => run_with(L1Dist, nnk, &x2, eps, mode, minpts),
-        Met::L2 => run_with(L2Dist, nnk, &x2, eps, mode, minpts),
-        Met::Linf => run_with(LInfDist, nnk, &x2, eps, mode, minpts),
+        Met::L1 => run_with(L1Dist, nnk, &x2, eps, mode, minpts, &ch, mk_d_with, if new_o { mk_o_new } else { mk_o_with }),
+        Met::L2 => if ch.start == 'P' {
+            run_with(L2Dist, nnk, &x2, eps, mode, minpts, &ch, mk_d_params, mk_o_params)
+        } else {
+            run_with(L2Dist, nnk, &x2, eps, mode, minpts, &ch, mk_d_with, if new_o { mk_o_new } else { mk_o_with })
+        },
+        Met::Linf => run_with(LInfDist, nnk, &x2, eps, mode, minpts, &ch, mk_d_with, if new_o { mk_o_new } else { mk_o_with }),
     }) {
         Ok(r) => r,
         Err(e) => Err(e),
@@ -600,11 +673,12 @@ fn main() {
         let n = x.len();
         let xa = arr(&x, d);
         let mname = format!("{:?}", m);
+        let chain = gen_chain(&mut r, m, ds_all);
         let desc = format!(
-            "{{\"n\": {}, \"d\": {}, \"metric\": {}, \"family\": {}, \"min_points\": {}, \"tolerance\": \"{:e}\", \"tolerance_literal\": {}, \"stream\": {}, \"X\": {}}}",
-            n, d, jstr(&mname), fam, minpts, eps, jstr(&cf64(eps)), jstr(stream), jrows(&x)
+            "{{\"n\": {}, \"d\": {}, \"metric\": {}, \"family\": {}, \"min_points\": {}, \"tolerance\": \"{:e}\", \"tolerance_literal\": {}, \"stream\": {}, \"builder_chain\": {}, \"X\": {}}}",
+            n, d, jstr(&mname), fam, minpts, eps, jstr(&cf64(eps)), jstr(stream), jstr(&chain.name()), jrows(&x)
         );
-        let mut tags: Vec<String> = vec![format!("metric_{}", mname), format!("family_{}", fam), format!("stream_{}", stream)];
+        let mut tags: Vec<String> = vec![format!("metric_{}", mname), format!("family_{}", fam), format!("stream_{}", stream), format!("chain_{}", chain.name())];
         if d == 0 { tags.push("dim0".into()); }
         // input class of finding F25: some pair lies inside the range by at most 4 ulps of the reduced range
         let rr = to_r(m, eps);
@@ -622,12 +696,20 @@ fn main() {
         let mut runs: Vec<RunOut> = Vec::new();
         let mut failed: Option<String> = None;
         for nnk in 0..3 {
-            match run(m, nnk, &xa, eps, mode, minpts) {
+            match run(m, nnk, &xa, eps, mode, minpts, &chain) {
                 Ok(o) => runs.push(o),
                 Err(e) => { failed = Some(format!("index {}: {}", nnk, e)); break; }
             }
         }
         out.bump(&format!("stream_{}", stream));
+        out.bump(&format!("chain_{}", chain.name()));
+        out.bump(&format!("chain_start_{}", chain.start));
+        if let (Some(t), Some(dd)) = (chain.steps.iter().position(|&c| c == 'T'), chain.steps.iter().position(|&c| c == 'D')) {
+            out.bump(if dd > t { "chain_dist_fn_after_tolerance" } else { "chain_dist_fn_before_tolerance" });
+        }
+        if let (Some(t), Some(nn)) = (chain.steps.iter().position(|&c| c == 'T'), chain.steps.iter().position(|&c| c == 'N')) {
+            out.bump(if nn > t { "chain_nn_algo_after_tolerance" } else { "chain_nn_algo_before_tolerance" });
+        }
         out.bump(&format!("metric_{}", mname));
         out.bump(&format!("family_{}", fam));
         out.bump(&format!("min_points_{}", if minpts > 5 { "gt5".to_string() } else { minpts.to_string() }));
@@ -647,6 +729,9 @@ fn main() {
         }
         if runs.iter().any(|o| !o.dataset_same) {
             out.rust_fail(id, 65536, &tagrefs, "Dbscan on a dataset differs from Dbscan on its records (or changed the records), or as_slice / indexing of the OPTICS analysis disagree with iter", &desc);
+        }
+        if runs.iter().any(|o| !o.getters_ok) {
+            out.rust_fail(id, 65536, &tagrefs, "the checked parameter sets do not report the min_points / tolerance / index that the setter chain was given", &desc);
         }
         // input classes, measured on the linear-scan run
         let o0 = &runs[0];
@@ -679,5 +764,5 @@ fn main() {
         out.case(id, &coq, &tagrefs, &desc, key);
         id += 1;
     }
-    out.finish("point sets from 8 families (chains, rings with a blob, dense blocks joined by bridge points, small lattices with duplicates, stars, gaussian blobs with noise, 1-D integers, lattice at the scale of the default tolerance) x L1/L2/Linf x min_points 2..5 x tolerance strictly between / exactly equal to an inter-point distance / default, each run with LinearSearch, KdTree and BallTree; plus the targeted streams ulp_border (tolerance = a computed distance and its two neighbouring floats), duplicates (copies at distance +0; squared tolerance underflowing to +0), minpts_extreme (min_points 2 / n-1 / n / n+1, tolerance covering everything or equal to the largest distance) and shared_border (chains of one-core-point clusters sharing border points, min_points = the size of an inner centre's neighbourhood); a case is non-trivial when it has a core point and a border point, noise or a second cluster; distinct = distinct (points, min_points, tolerance, metric) hashes; plus the grid of malformed hyper-parameters");
+    out.finish("point sets from 8 families (chains, rings with a blob, dense blocks joined by bridge points, small lattices with duplicates, stars, gaussian blobs with noise, 1-D integers, lattice at the scale of the default tolerance) x L1/L2/Linf x min_points 2..5 x tolerance strictly between / exactly equal to an inter-point distance / default, each run with LinearSearch, KdTree and BallTree, the Dbscan / Optics parameter sets built through a per-case chain of constructor (params_with / params_with + nn_algo / params / OpticsParams::new) and setters (tolerance, dist_fn, nn_algo in every order) that always carries the case's values; plus the targeted streams ulp_border (tolerance = a computed distance and its two neighbouring floats), duplicates (copies at distance +0; squared tolerance underflowing to +0), minpts_extreme (min_points 2 / n-1 / n / n+1, tolerance covering everything or equal to the largest distance) and shared_border (chains of one-core-point clusters sharing border points, min_points = the size of an inner centre's neighbourhood); a case is non-trivial when it has a core point and a border point, noise or a second cluster; distinct = distinct (points, min_points, tolerance, metric) hashes; plus the grid of malformed hyper-parameters");
 }
